@@ -249,6 +249,10 @@ func (g *gen) rangePattern() *E {
 	return e
 }
 
+// notFree makes src render `not e` as `(e) is false`: same meaning for boolean e, but out of
+// reach of the folder's `not (a < b)` => `a >= b` rewrite (which fires without any constant)
+var notFree bool
+
 // src renders the program text; inline[i] says whether leaf i stays a literal
 func src(e *E, inline []bool, sb *strings.Builder) {
 	switch e.k {
@@ -267,6 +271,12 @@ func src(e *E, inline []bool, sb *strings.Builder) {
 		src(e.kids[0], inline, sb)
 		sb.WriteString(")")
 	case kUnary:
+		if notFree && e.op == "not" {
+			sb.WriteString("(")
+			src(e.kids[0], inline, sb)
+			sb.WriteString(") is false")
+			return
+		}
 		sb.WriteString(e.op + " ")
 		src(e.kids[0], inline, sb)
 	case kBinary:
@@ -751,12 +761,37 @@ func runPinned(t *lib.Trace) {
 	}
 }
 
+// runStructural: the two folder rewrites that fire without any constant folding —
+// `not (a op b)` => `a inverse(op) b` and `c op x` => `x reverse(op) c` — on every comparison
+// operator, with equal and unequal operands, against spellings the folder leaves alone.
+func runStructural(t *lib.Trace) {
+	for _, op := range []string{"<", "<=", ">", ">=", "is", "isnt"} {
+		for _, vals := range [][2]string{{"1", "1"}, {"1", "2"}, {"2", "1"}, {"'a'", "1"}} {
+			args := []core.Value{constant(vals[0]), constant(vals[1])}
+			plain := runProg("function(p0,p1){ p0 "+op+" p1 }", args)
+			neg := runProg("function(p0,p1){ not (p0 "+op+" p1) }", args)
+			ref := runProg("function(p0,p1){ (p0 "+op+" p1) is false }", args)
+			swapped := runProg("function(p0,p1){ "+vals[0]+" "+op+" p1 }", args)
+			t.Count("structural")
+			if neg.String() != ref.String() {
+				t.Fail("fold-not-inversion-differs", fmt.Sprintf("not (%s %s %s) => %s but (%s %s %s) is false => %s",
+					vals[0], op, vals[1], neg, vals[0], op, vals[1], ref))
+			}
+			if swapped.String() != plain.String() {
+				t.Fail("fold-operand-swap-differs", fmt.Sprintf("%s %s p1 with p1 = %s => %s but p0 %s p1 => %s",
+					vals[0], op, vals[1], swapped, op, plain))
+			}
+		}
+	}
+}
+
 func main() {
 	t := lib.Open()
 	defer t.Close()
 	r := lib.Rand()
 	n := lib.N(3000)
 	runPinned(t)
+	runStructural(t)
 
 	for i := 0; i < n; i++ {
 		wide := i%2 == 1
@@ -830,6 +865,20 @@ func main() {
 			// nothing is constant in B; a compile error there means the generator is wrong
 			t.Fail("generator-invalid-program", progB+" : "+b.err)
 			continue
+		}
+		if b.err == "" && strings.Contains(progB, "not ") {
+			// structural rewrite oracle: the `not`-free spelling must give the same value
+			var sc strings.Builder
+			notFree = true
+			src(e, none, &sc)
+			notFree = false
+			progC := hdr + sc.String() + " }"
+			if c := runProg(progC, args); c.err == "" && c.String() != b.String() {
+				t.Count("oracle:fold-not-inversion-differs")
+				t.Fail("fold-not-inversion-differs", fmt.Sprintf("%s => %s but %s => %s with (%s)",
+					progB, b, progC, c, strings.Join(leafTexts(g.leaves), ", ")))
+			}
+			t.Count("not-free-variant-compared")
 		}
 		direct := directLiteral(e, inline, g.leaves)
 		sig := classify(progA, leafTexts(g.leaves), a, b, direct)
